@@ -18,6 +18,7 @@ sed -e 's#^\t"sync"$#\tsync "verif/engine/sched/vsync"#' \
     -e 's#^\t"time"$#\ttime "verif/engine/sched/vtime"#' \
     -e 's#^\t"os"$#\tos "verif/engine/sched/vos"#' \
     -e 's#^\t"golang.org/x/crypto/pbkdf2"$#\tpbkdf2 "verif/engine/sched/vpbkdf2"#' \
+    -e 's#^\t"path/filepath"$#\tfilepath "verif/engine/sched/vfilepath"#' \
     $KS > $GEN/keystore.go.new
 cmp -s $GEN/keystore.go.new $GEN/keystore.go 2>/dev/null || mv $GEN/keystore.go.new $GEN/keystore.go
 rm -f $GEN/keystore.go.new
